@@ -813,6 +813,12 @@ def run(ctx, rep):
     rep.rule("R05.4", "frame layout agreement between Channel.send and Channel.recv (header(len, flag) + payload + flusher)")
     rep.rule("R05.5", "FIFO hand-off of packets to the transport (append / pop(0))")
     rep.rule("R05.6", "a closed stream fails fast: no cached descriptor numbers or poll objects")
+    rep.rule("R05.10", "nothing the transport layers do hides inside an assert (python -O would skip it)")
+    from . import hygiene as H_a
+    H_a.no_effects_in_assert(ctx, rep, "R05.10", ["rpyc.core.channel", "rpyc.core.stream", "rpyc.core.protocol", "rpyc.core.brine",
+                                                 "rpyc.core.vinegar", "rpyc.core.netref", "rpyc.core.async_", "rpyc.lib.compat",
+                                                 "rpyc.lib", "rpyc.lib.colls", "rpyc.utils.server", "rpyc.utils.classic"],
+                             pure_extra=("brine.dumpable", "dumpable"))
     rep.assume("kernel fragmentation behaviour and zlib correctness are trusted",
                "Win32PipeStream / NamedPipeStream are dead code on this platform and not armed",
                "close() of the OS-level object is taken as non-raising")
